@@ -1133,6 +1133,18 @@ impl Transaction {
             }
 
             //
+            // the signature only speaks for the key in the first input, so
+            // every value-carrying input must belong to that key
+            //
+            let signer: SaitoPublicKey = self.from[0].public_key;
+            if self.from.iter().any(|slip| {
+                slip.amount > 0 && slip.slip_type != SlipType::Bound && slip.public_key != signer
+            }) {
+                error!("ERROR 582040: transaction spends inputs that do not belong to its signer");
+                return false;
+            }
+
+            //
             // validate routing path sigs
             //
             // it strengthens censorship-resistance and anti-MEV properties in the network
